@@ -19,6 +19,20 @@ CHECKS = {
   note="Trusted: TLC, the reference reader as the meaning of the three quoting styles, helper vpa; in-process plan = what the binary "
        "executes (sampled at process level). Known findings (backslash style only) are listed in known_findings.json.",
   technique="TLA+ reference reader + TLC enumeration of quoted lines; exhaustive in-process replay, process-level confirmation"),
+ "C07": dict(
+  category="model_checking",
+  text="TLC checks the terminal invariants (shell owns the terminal at the prompt, the foreground job while it is waited for) on "
+       "the JobControl model for every interleaving; random interactive sessions of the real binary on a pseudo-terminal (launch "
+       "fg/bg pipelines of 1..3 stages, Ctrl-Z, Ctrl-C, fg/bg id, external stop/cont/kill/exit of members, jobs, empty lines) are "
+       "recorded with state-based observations (tcgetpgrp, /proc state and process group of every helper, the shell's blocking "
+       "system call, the parsed jobs listing and notifications) and validated by TLC against spec/TraceSession.tla: every logged "
+       "action is a JobControl action, unseen shell steps are bounded silent steps, and the statements of C07 are evaluated on "
+       "every observation.",
+  design_ref="DESIGN.md 3.8, 6 (C07)",
+  note="Trusted: TLC, the pty driver's quiescence detection (/proc/<pid>/syscall + stat, several consecutive looks), helper vjob. "
+       "A session that does not settle is dropped (tool level), a session the model cannot explain without any C07 statement "
+       "failing is counted as spec_drift, not as a violation.",
+  technique="TLA+ session model; recorded pty sessions validated by TLC with silent steps, C07 statements asserted on observations"),
  "C06": dict(
   category="model_checking",
   text="TLC explores every interleaving of child status changes (with Linux's report coalescing), foreground-wait iterations, "
